@@ -128,8 +128,7 @@ class ModelState:
             pending = m.cp[1] if m.cp else None
             if k in ("CPUP", "CPUIP"):
                 ch = m.changed_vs_head()
-                if ch:
-                    pending = tuple(sorted((p, c if c is not None else "missing") for p, c in ch.items()))
+                pending = tuple(sorted((p, c if c is not None else "missing") for p, c in ch.items())) if ch else None
             m.cp = (cid, pending)
         elif k in ("CPD", "OUTD"):
             m.cp = None
@@ -547,7 +546,34 @@ def swap_task(task):
             evals += 1
             if d is None or d.get("targets") != []:
                 v.append(("targets-after-pending-update", "pending sets %s then %s: analyze after the second update -p reports %s" % (s1, s2, d and d.get("targets"))))
-        keep = ("show-differs-from-last-update", "update-recorded-wrong-id", "update-failed") if prop == "C19" else ("targets-after-pending-update",)
+        if prop == "C07" and second[0] == "CPUP":
+            # later edits after the second update: creation of a file (with a content it may have had
+            # before), change to fresh content, deletion of a committed file
+            trials = []
+            for p, c in zip(SWAP_PATHS, s2):
+                if c is None and p != "a/f.txt":
+                    trials += [(p, "1"), (p, "2")]
+                else:
+                    trials += [(p, "fresh-%s" % p)]
+            trials.append(("a/f.txt", None))
+            for p, c in trials:
+                fp = r.path(p)
+                saved = open(fp).read() if os.path.isfile(fp) else None
+                if c is None:
+                    os.unlink(fp)
+                else:
+                    r.write(p, sc.content(c))
+                d = r.mr("analyze").json()
+                evals += 1
+                want = image([p])
+                if d is None or d.get("targets") != want:
+                    v.append(("edit-not-reflagged", "pending sets %s then %s, both recorded with update -p; then %s %s: analyze reports %s, expected %s" % (
+                        s1, s2, "deleting" if c is None else "writing content %s to" % c, p, d and d.get("targets"), want)))
+                if saved is None:
+                    os.unlink(fp)
+                else:
+                    r.write(p, saved)
+        keep = ("show-differs-from-last-update", "update-recorded-wrong-id", "update-failed") if prop == "C19" else ("targets-after-pending-update", "edit-not-reflagged")
         v = [x for x in v if x[0] in keep]
         return {"violations": [{"sig": sig, "detail": d, "rank": 40, "case": {"swap_case": [list(s1), list(s2), second, prop]}} for sig, d in v],
                 "evals": evals, "obs": None, "nontrivial": 1 if s1 != s2 else 0}
